@@ -2,6 +2,7 @@ package decoder
 
 import (
 	"fmt"
+	"reflect"
 	"unsafe"
 
 	"github.com/goccy/go-json/internal/errors"
@@ -15,13 +16,11 @@ type arrayDecoder struct {
 	alen         int
 	structName   string
 	fieldName    string
-	zeroValue    unsafe.Pointer
+	zeroValue    reflect.Value
 }
 
 func newArrayDecoder(dec Decoder, elemType *runtime.Type, alen int, structName, fieldName string) *arrayDecoder {
-	// workaround to avoid checkptr errors. cannot use `*(*unsafe.Pointer)(unsafe_New(elemType))` directly.
-	zeroValuePtr := unsafe_New(elemType)
-	zeroValue := **(**unsafe.Pointer)(unsafe.Pointer(&zeroValuePtr))
+	zeroValue := reflect.Zero(runtime.RType2Type(elemType))
 	return &arrayDecoder{
 		valueDecoder: dec,
 		elemType:     elemType,
@@ -30,6 +29,17 @@ func newArrayDecoder(dec Decoder, elemType *runtime.Type, alen int, structName, 
 		structName:   structName,
 		fieldName:    fieldName,
 		zeroValue:    zeroValue,
+	}
+}
+
+// clearTail sets the elements [idx, alen) of the array at p to their zero
+// value: a JSON array shorter than the Go array zeroes the rest. The store is
+// made with the element's own type and size (a pointer-sized store per element
+// wrote beyond small elements and left large ones half cleared).
+func (d *arrayDecoder) clearTail(p unsafe.Pointer, idx int) {
+	typ := d.zeroValue.Type()
+	for ; idx < d.alen; idx++ {
+		reflect.NewAt(typ, unsafe.Pointer(uintptr(p)+uintptr(idx)*d.size)).Elem().Set(d.zeroValue)
 	}
 }
 
@@ -51,10 +61,7 @@ func (d *arrayDecoder) DecodeStream(s *Stream, depth int64, p unsafe.Pointer) er
 			idx := 0
 			s.cursor++
 			if s.skipWhiteSpace() == ']' {
-				for idx < d.alen {
-					*(*unsafe.Pointer)(unsafe.Pointer(uintptr(p) + uintptr(idx)*d.size)) = d.zeroValue
-					idx++
-				}
+				d.clearTail(p, idx)
 				s.cursor++
 				return nil
 			}
@@ -71,10 +78,7 @@ func (d *arrayDecoder) DecodeStream(s *Stream, depth int64, p unsafe.Pointer) er
 				idx++
 				switch s.skipWhiteSpace() {
 				case ']':
-					for idx < d.alen {
-						*(*unsafe.Pointer)(unsafe.Pointer(uintptr(p) + uintptr(idx)*d.size)) = d.zeroValue
-						idx++
-					}
+					d.clearTail(p, idx)
 					s.cursor++
 					return nil
 				case ',':
@@ -127,10 +131,7 @@ func (d *arrayDecoder) Decode(ctx *RuntimeContext, cursor, depth int64, p unsafe
 			cursor++
 			cursor = skipWhiteSpace(buf, cursor)
 			if buf[cursor] == ']' {
-				for idx < d.alen {
-					*(*unsafe.Pointer)(unsafe.Pointer(uintptr(p) + uintptr(idx)*d.size)) = d.zeroValue
-					idx++
-				}
+				d.clearTail(p, idx)
 				cursor++
 				return cursor, nil
 			}
@@ -152,10 +153,7 @@ func (d *arrayDecoder) Decode(ctx *RuntimeContext, cursor, depth int64, p unsafe
 				cursor = skipWhiteSpace(buf, cursor)
 				switch buf[cursor] {
 				case ']':
-					for idx < d.alen {
-						*(*unsafe.Pointer)(unsafe.Pointer(uintptr(p) + uintptr(idx)*d.size)) = d.zeroValue
-						idx++
-					}
+					d.clearTail(p, idx)
 					cursor++
 					return cursor, nil
 				case ',':
